@@ -6,7 +6,7 @@ ID = "C11"
 LEVEL = "exploration"
 TECHNIQUE = ("runtime monitoring: sequential reference model + independent parse of the file after every single "
              "operation of generated add/remove/replace/setter histories on real files")
-RULE = ("bounded-exhaustive op sequences (depth<=3 quick / 4 thorough, 17-op alphabet = 3 types x 2 payload sizes x "
+RULE = ("removal by an instance of the type in either of its formats (a removal that does not find a present type is a violation); bounded-exhaustive op sequences (depth<=3 quick / 4 thorough, 17-op alphabet = 3 types x 2 payload sizes x "
         "add/replace/set + remove) on reference-encoded tables of N in {1,2,3} (empty or pre-filled with an opaque "
         "block) + removal-position matrix for N<=6 + random 30-80-op histories over all nine types on Tdf.new files "
         "and foreign compact files of N in {1,2,3,4,6,14} (opaque blocks, scrambled don't-care bytes; thorough: a copy "
